@@ -86,11 +86,10 @@ func renumber(n *Node, h, o *int) {
 //
 //	set 0: single leaves
 //	set 1: depth 1, breadth <= 3, all 7 leaf kinds (incl. a uc child), n in 0..3          (complete)
-//	set 2: depth 2, breadth <= 3: children from the 6 leaf kinds + inner thresholds of breadth <= 2
-//	       over {above, pk(k1), h, opaque}, inner n in 0..2, outer n in 0..3               (complete)
-//	thorough adds
-//	set 3: depth 2, outer breadth <= 2, inner thresholds = all of breadth <= 3 over the 6 leaf kinds, n in 0..3
-//	set 4: depth 2, outer breadth 3, inner thresholds of breadth <= 2 over {above, pk(k1), pk(k2), h, opaque}, n in 0..3
+//	set 2: depth 2, breadth <= 3: children from the 6 leaf kinds + inner thresholds of breadth <= 2;
+//	       quick: inner over {above, pk(k1), h, opaque}, inner n in 0..2;
+//	       thorough: inner over {above, pk(k1), pk(k2), h, opaque}, inner n in 0..3; outer n in 0..3  (complete)
+//	set 3 (thorough): depth 2, outer breadth <= 2, inner thresholds = all of breadth <= 3 over the 6 leaf kinds, n in 0..3
 func treeSets(thorough bool, f func(set int, p Node)) {
 	six := []Node{leafAbove(), leafAfter(), leafPK(0), leafPK(1), leafH(), leafOp()}
 	seven := append(append([]Node{}, six...), leafUC())
@@ -111,37 +110,22 @@ func treeSets(thorough bool, f func(set int, p Node)) {
 	thresholds(seven, 3, n03, -1, emit(1))
 
 	var inner []Node
-	thresholds(four, 2, n02, -1, func(p Node) { inner = append(inner, p) })
+	if thorough {
+		thresholds(five, 2, n03, -1, func(p Node) { inner = append(inner, p) })
+	} else {
+		thresholds(four, 2, n02, -1, func(p Node) { inner = append(inner, p) })
+	}
 	thresholds(append(append([]Node{}, six...), inner...), 3, n03, len(six), emit(2))
 
 	if thorough {
 		inner = nil
 		thresholds(six, 3, n03, -1, func(p Node) { inner = append(inner, p) })
 		thresholds(append(append([]Node{}, six...), inner...), 2, n03, len(six), emit(3))
-		inner = nil
-		thresholds(five, 2, n03, -1, func(p Node) { inner = append(inner, p) })
-		alpha := append(append([]Node{}, six...), inner...)
-		tuples(len(alpha), 3, func(idx []int) {
-			has := false
-			for _, i := range idx {
-				has = has || i >= len(six)
-			}
-			if !has {
-				return
-			}
-			for _, n := range n03 {
-				of := make([]Node, 3)
-				for i, j := range idx {
-					of[i] = cloneNode(&alpha[j])
-				}
-				emit(4)(Node{K: "th", N: n, Of: of})
-			}
-		})
 	}
 }
 
 // witnessVariants expands one policy into cases.
-func witnessVariants(p Node, f func(Case)) {
+func witnessVariants(p Node, deep bool, f func(Case)) {
 	sh := shapeOf(&p)
 	var exactS []SigSpec
 	var exactP []PreSpec
@@ -165,8 +149,8 @@ func witnessVariants(p Node, f func(Case)) {
 		first = false
 	}
 	structurallyOK := p.K != "op" && p.K != "uc" && sh.structOK && sh.total <= 1024
-	if !structurallyOK && p.K == "th" && len(p.Of) == 3 {
-		// breadth-3 roots that no witness can satisfy: only the all-locks-satisfied corner
+	if !structurallyOK && deep {
+		// depth-2 trees that no witness can satisfy: only the all-locks-satisfied corner
 		heights, times = []uint64{lockHeight}, []int64{lockTime + 1}
 	}
 	for _, h := range heights {
@@ -180,7 +164,9 @@ func witnessVariants(p Node, f func(Case)) {
 	}
 	if !structurallyOK {
 		// the exact witnesses and no witnesses are the only interesting assignments
-		mk("surplus-sig", append(append([]SigSpec{}, exactS...), SigSpec{K: 0}), exactP, H, T)
+		if !deep || len(p.Of) < 3 {
+			mk("surplus-sig", append(append([]SigSpec{}, exactS...), SigSpec{K: 0}), exactP, H, T)
+		}
 		return
 	}
 	cpS := func() []SigSpec { return append([]SigSpec{}, exactS...) }
@@ -243,19 +229,19 @@ func witnessVariants(p Node, f func(Case)) {
 
 func TestEnumTree(t *testing.T) {
 	shard, n := stats.Shard()
-	var policies, cases [5]uint64
+	var policies, cases [4]uint64
 	i := 0
 	treeSets(stats.Thorough(), func(set int, p Node) {
 		policies[set]++
 		if i++; i%n != shard {
 			return
 		}
-		witnessVariants(p, func(c Case) {
+		witnessVariants(p, set >= 2, func(c Case) {
 			cases[set]++
 			stats.Check(t, c, checkCase)
 		})
 	})
-	names := []string{"leaves", "depth1_complete", "depth2_reduced_inner", "depth2_outer2_full_inner", "depth2_outer3_inner5"}
+	names := []string{"leaves", "depth1_complete", "depth2_breadth3_reduced_inner", "depth2_outer2_full_inner"}
 	for s := range policies {
 		if policies[s] > 0 {
 			if shard == 0 {
@@ -341,11 +327,7 @@ func TestEnumAddr(t *testing.T) {
 	// depth 2: outer breadth <= 2 over 7 leaves + inner (breadth <= 2 over 7 leaves, n in {0,1,2})
 	var inner []Node
 	thresholds(seven, 2, []uint8{0, 1, 2}, -1, func(p Node) { inner = append(inner, p) })
-	outerNs := []uint8{1}
-	if stats.Thorough() {
-		outerNs = ns
-	}
-	thresholds(append(append([]Node{}, seven...), inner...), 2, outerNs, len(seven), run)
+	thresholds(append(append([]Node{}, seven...), inner...), 2, ns, len(seven), run)
 	// depth 3 chains with siblings: th(1,[x, th(1,[y, th(n,[z..])])])
 	for _, in := range inner {
 		for _, x := range seven {
